@@ -26,6 +26,9 @@ pub enum TOp {
     /// write enough to leave flushes/compactions in flight, then close immediately
     WriteClose,
     Nop,
+    /// an open whose recovery fails: the n-th read-side filesystem call of this thread is failed
+    /// once (a failed open must leave a racing or running instance alone)
+    OpenFaulty(u8),
 }
 
 #[derive(Clone, Debug, Serialize, Deserialize, PartialEq, Eq, Hash)]
@@ -163,6 +166,7 @@ pub fn run_case(case: &OwnerCase) -> Result<OStats, String> {
     for t in 0..n {
         let (fs, barrier, log, model, errors, case, clock, opens_ok, closing, locked_at) =
             (fs.clone(), barrier.clone(), log.clone(), model.clone(), errors.clone(), case.clone(), clock.clone(), opens_ok.clone(), closing.clone(), locked_at.clone());
+        let fault_ctl = watch.ctl.clone();
         handles.push(std::thread::Builder::new().name(format!("owner-{t}")).spawn(move || {
             let mut db: Option<DB> = None;
             let mut wrote = 0u64;
@@ -172,8 +176,11 @@ pub fn run_case(case: &OwnerCase) -> Result<OStats, String> {
                 let op = case.rounds[r].get(t).copied().unwrap_or(TOp::Nop);
                 barrier.wait();
                 let res = match op {
-                    TOp::Open | TOp::OpenRetry => match {
+                    TOp::Open | TOp::OpenRetry | TOp::OpenFaulty(_) => match {
                         let t0 = std::time::Instant::now();
+                        if let TOp::OpenFaulty(n) = op {
+                            *fault_ctl.thread_fault.lock().unwrap() = Some((std::thread::current().id(), n as i64 + 1));
+                        }
                         let mut s0 = clock.fetch_add(1, std::sync::atomic::Ordering::SeqCst);
                         let mut r_ = DB::open(opts(&fs, case.small_memtable));
                         // keep trying for 25 ms, and for as long as some thread is still inside a close
@@ -201,6 +208,9 @@ pub fn run_case(case: &OwnerCase) -> Result<OStats, String> {
                             r_ = DB::open(opts(&fs, case.small_memtable));
                         }
                         let s1 = clock.fetch_add(1, std::sync::atomic::Ordering::SeqCst);
+                        if let TOp::OpenFaulty(_) = op {
+                            *fault_ctl.thread_fault.lock().unwrap() = None;
+                        }
                         if r_.is_ok() {
                             // from the moment this open held the lock, nobody else may touch the directory
                             let s_lock = locked_at.lock().unwrap().get(&format!("{:?}", std::thread::current().id())).copied().filter(|s| *s > s0).unwrap_or(s1);
@@ -216,7 +226,7 @@ pub fn run_case(case: &OwnerCase) -> Result<OStats, String> {
                             own.clear();
                             Res::OpenOk
                         }
-                        Err(e) => Res::OpenErr(format!("{e:?}")),
+                        Err(e) => Res::OpenErr(if matches!(op, TOp::OpenFaulty(_)) { format!("[faulty open] {e:?}") } else { format!("{e:?}") }),
                     },
                     TOp::Close => {
                         let _closing = ClosingMark::new(&closing, db.is_some());
@@ -385,7 +395,9 @@ pub fn run_case(case: &OwnerCase) -> Result<OStats, String> {
             if destroy_attempts > 0 {
                 destroy_ran_unowned = true;
             }
-            if open_attempts >= 1 && open_ok.is_empty() && !destroy_ran_unowned && closing.is_empty() {
+            // an open whose recovery was made to fail holds the lock for a moment: the others may lose against it
+            let faulty_failed = row.iter().any(|x| matches!(x, Res::OpenErr(e) if e.starts_with("[faulty open]")));
+            if open_attempts >= 1 && open_ok.is_empty() && !destroy_ran_unowned && closing.is_empty() && !faulty_failed {
                 let errs: Vec<String> = row.iter().filter_map(|x| if let Res::OpenErr(e) = x { Some(e.chars().take(120).collect()) } else { None }).collect();
                 return Err(format!("round {r}: nobody held the database, {open_attempts} threads raced to open it and none succeeded: {errs:?}"));
             }
@@ -472,16 +484,17 @@ fn strategy() -> BoxedStrategy<OwnerCase> {
                 2 => Just(TOp::Destroy),
                 3 => Just(TOp::Write),
                 2 => Just(TOp::WriteClose),
+                2 => (0u8..8).prop_map(TOp::OpenFaulty),
                 2 => Just(TOp::Nop),
             ];
             let hold = (select(vec!["compaction.step", "compaction.step", "flush.before_build", "manifest.before_append"]), 0u32..8, 3u32..16, select(vec![0u32, 0, 3, 6]))
                 .prop_map(|(p, nth, max_hold_ms, every)| crate::sched::Directive { role: -1, point: p.to_string(), nth, max_hold_ms, linger_ms: 0, every });
             let holds = prop_oneof![Just(vec![]), prop::collection::vec(hold, 1..5)];
             let delay = select(vec![0u32, 0, 0, 0, 0, 100, 300, 1000]);
-            (prop::collection::vec(prop::collection::vec(op, n), 2..9), Just(n), (any::<bool>(), holds, delay, prop::bool::weighted(0.4)), 0u8..4, 0usize..6)
+            (prop::collection::vec(prop::collection::vec(op, n), 2..9), Just(n), (any::<bool>(), holds, delay, prop::bool::weighted(0.4)), 0u8..5, 0usize..6)
         })
         .prop_map(|(mut rounds, threads, (small_memtable, mut directives, mut bg_delay_us, mut overlap), pattern, who)| {
-            // structured tail (1 of 4 cases): an owner writes until table compactions with inline
+            // structured tail (1 of 5 cases): an owner writes until table compactions with inline
             // memtable flushes are running (slowed-down, periodically held background thread) and
             // closes at once while all other threads keep trying to open the database
             if pattern == 3 {
@@ -499,7 +512,24 @@ fn strategy() -> BoxedStrategy<OwnerCase> {
                 bg_delay_us = bg_delay_us.max(300);
                 directives.push(crate::sched::Directive { role: -1, point: "compaction.step".into(), nth: (who % 3) as u32, max_hold_ms: 6, linger_ms: 0, every: 3 });
             }
-            // structured tail (2 of 4 cases): somebody creates and closes a database, then one thread
+            // structured tail (1 of 5 cases): an existing database is opened by everybody at once, and
+            // the open of one thread fails during its recovery
+            if pattern == 4 {
+                let w = who % threads;
+                let mut create = vec![TOp::Nop; threads];
+                create[w] = TOp::Open;
+                let mut fill = vec![TOp::Nop; threads];
+                fill[w] = TOp::WriteClose;
+                let mut race = vec![TOp::OpenRetry; threads];
+                race[w] = TOp::OpenFaulty((who % 5) as u8);
+                rounds.push(vec![TOp::Close; threads]);
+                rounds.push(create);
+                rounds.push(fill);
+                rounds.push(race);
+                rounds.push(vec![TOp::Write; threads]);
+                rounds.push(vec![TOp::Close; threads]);
+            }
+            // structured tail (2 of 5 cases): somebody creates and closes a database, then one thread
             // destroys it while all others keep trying to open it, and everybody closes again
             if pattern == 1 || pattern == 2 {
                 let w = who % threads;
